@@ -19,7 +19,7 @@ ASSUMPTIONS = ['state is discrete: the claim is exhaustive within the sequence b
 BOUNDS = {'quick': 'all sequences of length <= 3 over 12 events for String/Formula graders, length <= 2 for Numerical/Matrix/SingleList, with and without configured answers, debug on/off',
           'thorough': 'length <= 4 for String/Formula, <= 3 for the others'}
 OUTSIDE = ['sequences longer than the bound', 'IntegralGrader', 'graders sharing subgraders beyond the ListGrader harness']
-DEADLINE = {'quick': 170, 'thorough': 2400}
+DEADLINE = {'quick': 600, 'thorough': 2400}
 FUNCS = ['ItemGrader.__call__ (answer inference, inferring_answers)', 'AbstractGrader.__call__/create_debuglog/log_created', 'StringGrader.__call__', 'FormulaGrader.__init__/raw_check',
          'MathMixin.validate_math_config', 'MatrixGrader.check_response (MathArray.enable_negative_powers)', 'SingleListGrader.check_response', 'ListGrader.check',
          'MathExpression.eval/eval_variable', 'ObjectWithSchema.__init__/coerce2unicode']
